@@ -138,3 +138,120 @@ theorem thru_cum (h : t.WF) {ins : Ins} {g : Graph} (inv : GInv t ins g) (key : 
     exact ⟨e, (hmem e).2 ⟨d, hc, hd, heL⟩, by rw [inv.cum d e hd]; exact hq⟩
 
 end Gossamer.C20
+
+namespace Gossamer.C20
+
+variable {t : Tree}
+
+theorem parent_mem_edge (h : t.WF) (N : Nat → Bool) {x : Nat} (hx : 0 < x) : t.parent x ∈ edge t N x := by
+  unfold edge
+  rw [Tree.chain_tail_pos h hx]
+  have hh := Tree.chain_head t (t.parent x)
+  cases hc : t.chain (t.parent x) with
+  | nil => exact absurd hc (t.chain_ne_nil _)
+  | cons y ys =>
+    rw [hc] at hh
+    have : y = t.parent x := by simpa using hh
+    subst this
+    simp only [takeThrough]
+    split <;> simp
+
+/-- **the merge loop** started at `B` with the vote-nodes below `B` (none of which meets the condition) ends at
+the `Top` of `B` and reports its block number -/
+theorem mergeLoop_top (h : t.WF) {ins : Ins} {g : Graph} (inv : GInv t ins g) (key : Nat → Nat)
+    {cond : Mask → Bool} (hm : MonoCond cond) : ∀ (f B : Nat) (L : List Entry),
+    MLInv t ins g cond B L → B < t.size → inGraph (cumOf t ins) B = true → cond (cumOf t ins B) = true →
+    t.size ≤ f + t.num B →
+    ∃ D, mergeLoop cond f L B (t.num B) = (D, t.num D) ∧ Top t (cumOf t ins) cond B D := by
+  intro f
+  induction f with
+  | zero =>
+    intro B L _ hB _ _ hf
+    have := Tree.num_le_self h B
+    omega
+  | succ f ih =>
+    intro B L ml hB hinG hok hf
+    have hcorr : BlocksCorr [] (fun _ => none) := fun x => by simp
+    simp only [mergeLoop]
+    rw [mergePass_eq cond (t.num B + 1) L [] (fun _ => none) hcorr]
+    cases hmp : mergePassF cond (t.num B + 1) L (fun _ => none) with
+    | none =>
+      refine ⟨B, rfl, t.mem_chain_self B, hB, hinG, hok, ?_⟩
+      intro x hx
+      obtain ⟨hxlt, hx0, hxp⟩ := Tree.mem_children.1 hx
+      have hxpos : 0 < x := by omega
+      cases hgood : good (cumOf t ins) cond x with
+      | false => rfl
+      | true =>
+        exfalso
+        simp only [good, Bool.and_eq_true] at hgood
+        cases hN : isNode ins x with
+        | true =>
+          have hBe : B ∈ edge t (isNode ins) x := hxp ▸ parent_mem_edge h _ hxpos
+          obtain ⟨e, heL, hex⟩ := ml.compl x hN hBe
+          have := ml.fail e heL
+          rw [inv.cum x e hex, hgood.2] at this; cases this
+        | false =>
+          have hnum : t.num x = t.num B + 1 := by rw [Tree.num_pos h hxpos, hxp]
+          obtain ⟨hcum, hmem⟩ := thru_cum h inv key ml hN hxp hnum
+          have hin := (inGraph_iff h inv x).1 hgood.1
+          rcases hin with hn | ⟨d, hd⟩
+          · rw [hn] at hN; cases hN
+          · obtain ⟨e, heL, hed⟩ := ml.compl d hd.1 (containing_child h hN hxp hd)
+            have hethru : e ∈ thru (t.num B + 1) x L := (hmem e).2 ⟨d, hd, hed, heL⟩
+            cases hth : thru (t.num B + 1) x L with
+            | nil => rw [hth] at hethru; simp at hethru
+            | cons e1 rest =>
+              cases rest with
+              | nil =>
+                rw [hth] at hcum hethru
+                have he1 : e = e1 := by simpa using hethru
+                subst he1
+                have hc : cumOf t ins x = e.cum := by rw [← hcum]; simp [orCum]
+                have := ml.fail e heL
+                rw [← hc, hgood.2] at this; cases this
+              | cons e2 rest2 =>
+                have := mergePassF_none (cond := cond) (t.num B + 1) L (fun _ => none) hmp x
+                  (Or.inr (by rw [hth]; simp))
+                simp only [Option.getD_none] at this
+                rw [hcum, hgood.2] at this; cases this
+    | some X =>
+      simp only
+      obtain ⟨e, heL, heX⟩ := mergePassF_origin cond _ L _ X hmp
+      obtain ⟨d, hd, hBd⟩ := ml.sound e heL
+      obtain ⟨hXe, hXn, hXp, hXN, hXpos⟩ := step_block h inv hd hBd heX
+      have hdN := inv.node_of_entry hd
+      have hXlt : X < t.size := by
+        have := Tree.mem_chain_le h _ _ (edge_mem_chain h hXe)
+        have := inv.node_lt h hdN
+        omega
+      obtain ⟨hcum, _⟩ := thru_cum h inv key ml hXN hXp hXn
+      have hXok : cond (cumOf t ins X) = true := by
+        have := mergePassF_some hm (t.num B + 1) L (fun _ => none) X hmp
+        simp only [Option.getD_none] at this
+        rw [hcum] at this; exact this
+      have hXin : inGraph (cumOf t ins) X = true := (inGraph_iff h inv X).2 (Or.inr ⟨d, hdN, hXe⟩)
+      have ml' : MLInv t ins g cond X
+          (L.filter (fun d => d.inDirectAncestry X (t.num B + 1) == some true)) := by
+        refine ⟨?_, ?_, ?_⟩
+        · intro e' he'
+          obtain ⟨he'L, hida⟩ := List.mem_filter.1 he'
+          obtain ⟨d', hd', _⟩ := ml.sound e' he'L
+          refine ⟨d', hd', ?_⟩
+          have hida' : e'.inDirectAncestry X (t.num X) = some true := by rw [hXn]; simpa using hida
+          exact (inDirectAncestry_true h (inv.number d' e' hd') (inv.anc d' e' hd') X).1 hida'
+        · intro d' hd'N hXd'
+          obtain ⟨e', he'L, hd'⟩ := ml.compl d' hd'N (containing_child h hXN hXp ⟨hd'N, hXd'⟩)
+          refine ⟨e', List.mem_filter.2 ⟨he'L, ?_⟩, hd'⟩
+          have := (inDirectAncestry_true h (inv.number d' e' hd') (inv.anc d' e' hd') X).2 hXd'
+          rw [hXn] at this
+          simp [this]
+        · intro e' he'
+          exact ml.fail e' (List.mem_filter.1 he').1
+      obtain ⟨D, hD, hT⟩ := ih X _ ml' hXlt hXin hXok (by omega)
+      rw [hXn] at hD
+      refine ⟨D, hD, ?_⟩
+      have hBX : B ∈ t.chain X := hXp ▸ Tree.parent_mem_chain h hXpos
+      exact ⟨Tree.le_trans h hBX hT.above, hT.lt, hT.inG, hT.ok, hT.stop⟩
+
+end Gossamer.C20
